@@ -41,6 +41,49 @@ CLAIMED = {
             "i.e. (by C01) to the direct-integration targets. Total-site records, utility duties and pinch temperatures are decided by "
             "running the implementation on every problem together with its seven transformed twins and relating EVERY record pair in coqc.",
             "As C01; zone renaming/reordering and the non-DI records rest on the twin comparison only."),
+    "C03": ("DESIGN.md 8/C03",
+            "Theorems (closed) on the Q model of _assign_utility/_maximise_utility_duty, any profile, any ladder, instantiated at the generated "
+            "tol: duties >= 0; a positive duty implies a reachable interval with unmet demand; on a pocket-free segment the duties NEVER exceed "
+            "Qh/Qc (gliding utilities included); if one utility clear of the grid reaches the extreme row the sum is within tol of the target "
+            "(telescoping); for ladders clear of the grid the loop equals the lowest-grade-first closed form duty_k = P_k - P_(k-1); after "
+            "completion some hot and some cold utility always pass the reach test. 'Sums close for EVERY target' rests on the tie: every "
+            "DI target and the total-process record of every generated problem are judged in coqc (model = implementation duty by duty, "
+            "sum, sign, reach, defaults, per-utility zone sums); stage-level get_utility_targets on synthetic tables as well.",
+            "Open finding D24 (gliding cold user utility undersupplied; refuted-theorem witness). The loop iterates by real supply temperature; "
+            "with mixed dt_cont this can differ from shifted-level order (closed form checked in iteration order). Float rounding ties are "
+            "classified fragile. Table observed unrounded through an in-process wrapper around get_utility_targets (check process only)."),
+    "C04": ("DESIGN.md 8/C04",
+            "Theorems (closed): the lowest-grade-first allocation dominates prefix-wise every allocation whose prefix sums stay under the "
+            "pocket-free demand (independent closed-form optimum, any ladder order, with tol); on a monotone segment the duties of utilities "
+            "at or below a level never exceed the demand at that level (feasibility, any ladder). Row-by-row 0 <= H_ut <= H_np of the cascade "
+            "and the closed-form duties are evaluated in coqc on every DI target's own table (stage and end-to-end).",
+            "Open finding D39 (slope bound of gliding utilities: H_ut > H_np, refuted-theorem witness). hut_model = closed form at rows is "
+            "evaluated per case, not proved."),
+    "C08": ("DESIGN.md 8/C08",
+            "Theorems (closed) for every table with rows more than tol apart and every request list or history of lists: every populated "
+            "interpolated column is the same piecewise-linear function at every temperature; NaN columns stay NaN (cell rule proved); rows stay "
+            "strictly descending with gaps > tol; old rows kept; count = rows added; widths and dH re-derived for all rows but the first after "
+            "any effective call; idempotent; the invariant holds over histories. Tied to /repo by whole-matrix comparison (43 columns) after "
+            "every call of random histories and of the pipeline's own calls, plus an independent predicate on the implementation's tables, in coqc.",
+            "Order-irrelevance only within one call (_partial; across-calls version refuted with a witness replayed on the code); first row's "
+            "width outside the statement; float rounding measured at 1e-9, not proved."),
+    "C10": ("DESIGN.md 8/C10",
+            "Theorems (closed) for ALL label lists on synthesised trees: construction total (counter and renaming loops never fail), generated "
+            "unit-operation leaves fresh, every labelled stream in exactly one leaf / once per ancestor / nowhere else, per-zone identity, count "
+            "and duty conservation, siblings disjoint, fresh utility objects per zone; user trees partial. Tie: prepare_problem / the whole "
+            "service on adversarial label sets (suffix/prefix/generated-name collisions, duplicate names, user trees); tree shape, placement, keys "
+            "and utility object ids compared with the model and the conservation predicate evaluated in coqc.",
+            "User trees proved only for labels resolving to childless zones (open findings D22, D38); model = path-list representation; "
+            "stream identity carried by htc; distinct sibling names assumed; dyadic duties compared exactly."),
+    "C11": ("DESIGN.md 8/C11",
+            "Theorems (closed) over ALL call histories of a state machine with the hidden state the code could have (function-default dict, "
+            "caller-owned vs library-created inputs, heap of returned results, PinchProblem source/name/cache) over an arbitrary pure pipeline: "
+            "history independence, totality, stateless errors, input unchanged, earlier results unchanged, module state unchanged, wrapper "
+            "refines the service; pre-repair machines (D5, D6, D11, D51) refuted with 2-3 call witnesses. Tie: every history runs in its own "
+            "fresh interpreter, every distinct problem once alone as the twin; contents, object identities and digests of all function "
+            "defaults/closures and module globals of the 40 OpenPinch modules are judged in coqc.",
+            "Purity of the numeric pipeline itself is observed through snapshots and fresh-interpreter twins, not proved; digests and id->loc "
+            "interning in c11.py are trusted; snapshot excludes __slotnames__, __pydantic_setattr_handlers__, _abc_impl, __abstractmethods__."),
     "C05": ("DESIGN.md 8/C05",
             "Theorems: on the model table, at every row, H_hot = exact heat of hot streams below T, H_cold = Qc + exact heat of cold "
             "streams below T, H_net = H_cold - H_hot = Qh - net deficit above T >= 0 and touches 0; curves span exactly the stream "
